@@ -27,6 +27,7 @@ type shp struct {
 	Name  string
 	Polys [][][][2]int64
 	IsBox bool
+	Milli bool // vertices given in 1/1000 units
 }
 
 func box(x0, y0, x1, y1 int64) [][2]int64 {
@@ -35,21 +36,23 @@ func box(x0, y0, x1, y1 int64) [][2]int64 {
 
 func catalogue() []shp {
 	return []shp{
-		{"box[0,6]x[0,6]", [][][][2]int64{{box(0, 0, 6, 6)}}, true},
-		{"box[2,4]x[0,6]", [][][][2]int64{{box(2, 0, 4, 6)}}, true},
-		{"box[0,6]x[2,4]", [][][][2]int64{{box(0, 2, 6, 4)}}, true},
-		{"tri1", [][][][2]int64{{{{0, 0}, {6, 0}, {0, 6}}}}, false},
-		{"tri2", [][][][2]int64{{{{0, 0}, {6, 2}, {2, 6}}}}, false},
-		{"L", [][][][2]int64{{{{0, 0}, {6, 0}, {6, 2}, {2, 2}, {2, 6}, {0, 6}}}}, false},
-		{"C", [][][][2]int64{{{{0, 0}, {6, 0}, {6, 2}, {2, 2}, {2, 4}, {6, 4}, {6, 6}, {0, 6}}}}, false},
-		{"box-hole", [][][][2]int64{{box(0, 0, 6, 6), box(2, 2, 4, 4)}}, false},
-		{"box-hole-cw", [][][][2]int64{{box(0, 0, 6, 6), {{2, 2}, {2, 4}, {4, 4}, {4, 2}}}}, false},
-		{"box-2holes", [][][][2]int64{{box(0, 0, 8, 6), box(1, 1, 3, 3), box(5, 2, 7, 5)}}, false},
-		{"two-boxes", [][][][2]int64{{box(0, 0, 2, 2)}, {box(4, 4, 6, 6)}}, false},
-		{"box+box-hole", [][][][2]int64{{box(0, 0, 2, 6)}, {box(4, 0, 8, 6), box(5, 1, 7, 3)}}, false},
-		{"island-in-hole", [][][][2]int64{{box(0, 0, 8, 8), box(2, 2, 6, 6)}, {box(3, 3, 5, 5)}}, false},
-		{"pentagon", [][][][2]int64{{{{1, 0}, {5, 0}, {6, 3}, {3, 6}, {0, 3}}}}, false},
-		{"closed-spelling", [][][][2]int64{{{{0, 0}, {6, 0}, {6, 6}, {0, 6}, {0, 0}}, {{2, 2}, {4, 2}, {4, 4}, {2, 4}, {2, 2}}}}, false},
+		{"box[0,6]x[0,6]", [][][][2]int64{{box(0, 0, 6, 6)}}, true, false},
+		{"box[2,4]x[0,6]", [][][][2]int64{{box(2, 0, 4, 6)}}, true, false},
+		{"box[0,6]x[2,4]", [][][][2]int64{{box(0, 2, 6, 4)}}, true, false},
+		{"tri1", [][][][2]int64{{{{0, 0}, {6, 0}, {0, 6}}}}, false, false},
+		{"tri2", [][][][2]int64{{{{0, 0}, {6, 2}, {2, 6}}}}, false, false},
+		{"L", [][][][2]int64{{{{0, 0}, {6, 0}, {6, 2}, {2, 2}, {2, 6}, {0, 6}}}}, false, false},
+		{"C", [][][][2]int64{{{{0, 0}, {6, 0}, {6, 2}, {2, 2}, {2, 4}, {6, 4}, {6, 6}, {0, 6}}}}, false, false},
+		{"box-hole", [][][][2]int64{{box(0, 0, 6, 6), box(2, 2, 4, 4)}}, false, false},
+		{"box-hole-cw", [][][][2]int64{{box(0, 0, 6, 6), {{2, 2}, {2, 4}, {4, 4}, {4, 2}}}}, false, false},
+		{"box-2holes", [][][][2]int64{{box(0, 0, 8, 6), box(1, 1, 3, 3), box(5, 2, 7, 5)}}, false, false},
+		{"two-boxes", [][][][2]int64{{box(0, 0, 2, 2)}, {box(4, 4, 6, 6)}}, false, false},
+		{"box+box-hole", [][][][2]int64{{box(0, 0, 2, 6)}, {box(4, 0, 8, 6), box(5, 1, 7, 3)}}, false, false},
+		{"island-in-hole", [][][][2]int64{{box(0, 0, 8, 8), box(2, 2, 6, 6)}, {box(3, 3, 5, 5)}}, false, false},
+		{"pentagon", [][][][2]int64{{{{1, 0}, {5, 0}, {6, 3}, {3, 6}, {0, 3}}}}, false, false},
+		// a corridor 6 000 000 long and 0.002 wide (aspect ratio 3e9), in 1/1000 units
+		{"corridor", [][][][2]int64{{{{0, 2}, {6000000000, 2}, {6000000000, 4}, {0, 4}}}}, true, true},
+		{"closed-spelling", [][][][2]int64{{{{0, 0}, {6, 0}, {6, 6}, {0, 6}, {0, 0}}, {{2, 2}, {4, 2}, {4, 4}, {2, 4}, {2, 2}}}}, false, false},
 	}
 }
 
@@ -68,7 +71,11 @@ func region(s shp) exact.Region {
 		for _, ring := range pg {
 			var o []exact.Pt
 			for _, v := range ring {
-				o = append(o, exact.Pt{X: v[0] * scale, Y: v[1] * scale})
+				if s.Milli {
+					o = append(o, exact.Pt{X: v[0], Y: v[1]})
+				} else {
+					o = append(o, exact.Pt{X: v[0] * scale, Y: v[1] * scale})
+				}
 			}
 			r = append(r, o)
 		}
@@ -83,7 +90,11 @@ func toGeom(s shp) geom.MultiPolygon {
 		for _, ring := range pg {
 			var o geom.Path
 			for _, v := range ring {
-				o = append(o, geom.Point{X: float64(v[0]), Y: float64(v[1])})
+				if s.Milli {
+					o = append(o, geom.Point{X: float64(v[0]) / scale, Y: float64(v[1]) / scale})
+				} else {
+					o = append(o, geom.Point{X: float64(v[0]), Y: float64(v[1])})
+				}
 			}
 			g = append(g, o)
 		}
@@ -472,7 +483,7 @@ func main() {
 		return
 	}
 	rep = report.New("C14", tier, "model_checking")
-	rep.Rule = "E1: 15 polygonal shapes (boxes, triangles, L, C, pentagon, holes in both windings and closed spelling, multi-polygons, island in hole) as Polygon / MultiPolygon / *Bounds x every simple open polyline of 2 and 3 vertices over the lattice (i+.37, j+.41), i,j in {-1,1,3,5,7} (thorough: -1..7), plus two-member multi-line strings; x-monotone zigzag lines of 63..200 vertices; every simple polyline of 4 and 5 vertices over the coarse lattice {-1,3,7}^2 (detours outside the bounding box; 5 vertices against 6 shapes, thorough all); the same pairs again with both operands rotated by 30 degrees and scaled by 1.7 (irrational coordinates, lengths scale by 1.7); a quarter of the pairs again scaled exactly by 2^-20 and 2^40 (every tolerance relative to the scale); pairs not in general position (exact test) or with a piece shorter than 1e-7 are skipped and counted. Oracle: reference inside length from exact crossing tests + even-odd classification of every piece; Length(result) equal (rel 1e-9); every result vertex within 1e-9 of the line and inside or on the polygon; empty iff the reference length is 0; the polygon argument is not modified; the same clip twice more with both operands cut from flat vertex buffers (same result, buffers not written, first result intact); clip sequences on one shared polygon value, also after the value has been moved in place (history). Non-trivial = lines partly inside."
+	rep.Rule = "E1: 16 polygonal shapes (a corridor of aspect ratio 3e9, boxes, triangles, L, C, pentagon, holes in both windings and closed spelling, multi-polygons, island in hole) as Polygon / MultiPolygon / *Bounds x every simple open polyline of 2 and 3 vertices over the lattice (i+.37, j+.41), i,j in {-1,1,3,5,7} (thorough: -1..7), plus two-member multi-line strings; x-monotone zigzag lines of 63..200 vertices; every simple polyline of 4 and 5 vertices over the coarse lattice {-1,3,7}^2 (detours outside the bounding box; 5 vertices against 6 shapes, thorough all); the same pairs again with both operands rotated by 30 degrees and scaled by 1.7 (irrational coordinates, lengths scale by 1.7); a quarter of the pairs again scaled exactly by 2^-20 and 2^40 (every tolerance relative to the scale); pairs not in general position (exact test) or with a piece shorter than 1e-7 are skipped and counted. Oracle: reference inside length from exact crossing tests + even-odd classification of every piece; Length(result) equal (rel 1e-9); every result vertex within 1e-9 of the line and inside or on the polygon; empty iff the reference length is 0; the polygon argument is not modified; the same clip twice more with both operands cut from flat vertex buffers (same result, buffers not written, first result intact); clip sequences on one shared polygon value, also after the value has been moved in place (history). Non-trivial = lines partly inside."
 	var lattice []exact.Pt
 	step := int64(2)
 	if tier == "thorough" {
@@ -602,6 +613,31 @@ func main() {
 				}
 			}
 		})
+	}
+	// lines against the corridor: along its inside, straight across it, and
+	// diagonally across, also rotated by 30 degrees
+	for si, sh := range cat {
+		if sh.Name != "corridor" {
+			continue
+		}
+		for _, l := range [][]exact.Pt{
+			{{X: 1000000, Y: 3}, {X: 5999000000, Y: 3}},
+			{{X: 1500000037, Y: -5000}, {X: 1500000037, Y: 9000}},
+			{{X: 1000000000, Y: -7000}, {X: 2000000000, Y: 8000}},
+			{{X: -5000, Y: 3}, {X: 6000005000, Y: 3}},
+		} {
+			for _, ct := range casts(sh) {
+				for _, rt := range []bool{false, true} {
+					if rt && ct == "Bounds" {
+						continue
+					}
+					c := Case{Shape: si, Cast: ct, Lines: [][]exact.Pt{l}, Rot: rt}
+					if sym, det := runCase(c); sym != "" {
+						rep.Violation(fmt.Sprintf("LineString.Clip|%s|corridor|%s", ct, sym), map[string]interface{}{"case": c, "observed": det})
+					}
+				}
+			}
+		}
 	}
 	// long lines: x-monotone zigzags of 64..200 vertices (an implementation may
 	// process long lines in runs), full height and inside the unit cells
